@@ -75,7 +75,7 @@ PROPS["C01"] = {
     "files": ["types/vote_set.go", "types/vote.go", "types/validator_set.go"],
     "groups": [
         {"dir": "types",
-         "quick": ["VP_C01_VoteSet_n2_k3", "VP_C01_VoteSet_n3_k2", "VP_C01_VoteSet_n2_k2_pv", "VP_C01_VoteSet_n2_k2_full"],
+         "quick": ["VP_C01_VoteSet_n2_k3", "VP_C01_VoteSet_n3_k2", "VP_C01_VoteSet_n2_k2_pv", "VP_C01_VoteSet_n2_k2_full", "VP_C01_VoteSet_n2_k5_conflict"],
          "thorough": ["VP_C01_VoteSet_n3_k3", "VP_C01_VoteSet_n3_k3_pv", "VP_C01_VoteSet_n2_k4", "VP_C01_VoteSet_n3_k3_full"]},
         {"dir": "consensus",
          "quick": ["VP_C02_Step_R1_vote_lockfocus", "VP_C02_Step_R1_part_lockfocus"],
@@ -83,7 +83,7 @@ PROPS["C01"] = {
     ],
     "bounds": {
         "commit rule and local voting rules (H2/H3)": "the inductive step of the real consensus.State (see C02): at every BlockStore.SaveBlock the saved block is the one with +2/3 precommits in the commit round, passed validation, its parts match the commit header, the seen commit is for it; ApplyBlock only after SaveBlock; nothing saved without deciding; lock rules L1-L5",
-        "vote set (H1)": "n = 2..3 validators, symbolic powers (total <= 2^16; one configuration up to MaxTotalVotingPower), histories of k = 2..3 (thorough 4) operations from: a well-formed genuinely signed vote of validator i for block A/B/nil, a junk-signature vote, a vote malformed in exactly one respect (height, round, type, index out of range / negative / other validator's index, empty address) but genuinely signed as such, SetPeerMaj23 by one of two peers for A/B/nil; quorum facts asserted after every operation; MakeCommit checked with the real VerifyCommit",
+        "vote set (H1)": "n = 2..3 validators, symbolic powers (total <= 2^16; one configuration up to MaxTotalVotingPower), histories of k = 2..3 (thorough 4) operations from: a well-formed genuinely signed vote of validator i for block A/B/nil, a junk-signature vote, a vote malformed in exactly one respect (height, round, type, index out of range / negative / other validator's index, empty address) but genuinely signed as such, SetPeerMaj23 by one of two peers for A/B/nil; one entry with k = 5 over the alphabet {validator 0 votes A, validator 0 votes B, a peer claims a majority} (equivocation and re-delivery); quorum facts asserted after every operation; MakeCommit checked with the real VerifyCommit",
     },
     "stubs": ["ed25519 = ideal signature oracle (natively real)", "H2/H3: the stubs of the consensus step harness (see C02)"],
     "outside": ["the composition of the per-node rules into agreement between nodes (H4) is the standard quorum-intersection argument and is not decided here; its conclusions are assumed as global facts on the vote table", "H2/H3 slices as listed for C02"],
@@ -135,7 +135,7 @@ PROPS["C12"] = {
          "quick": ["VP_C12_V0_k3_sync", "VP_C12_V0_k3_smallcache", "VP_C12_V0_k3_async", "VP_C12_V0_k3_async_size1", "VP_C12_V0_Reap_n2", "VP_C12_V0_Reap_n3"],
          "thorough": ["VP_C12_V0_k4_sync", "VP_C12_V0_k4_async", "VP_C12_V0_k4_smallcache", "VP_C12_V0_k3_3tx"]},
         {"dir": "mempool/v1",
-         "quick": ["VP_C12_V1_k3", "VP_C12_V1_k3_smallcache", "VP_C12_V1_k2_reap"],
+         "quick": ["VP_C12_V1_k3", "VP_C12_V1_k3_smallcache", "VP_C12_V1_k2_reap", "VP_C12_V1_Concurrent"],
          "thorough": ["VP_C12_V1_k4", "VP_C12_V1_k4_smallcache", "VP_C12_V1_k3_reap"]},
         {"dir": "state",
          "quick": ["VP_C05_Quiesce_0", "VP_C05_Quiesce_1_concurrent"],
@@ -144,6 +144,7 @@ PROPS["C12"] = {
     "bounds": {
         "histories": "real CListMempool (v0) and TxMempool (v1); k = 3 (thorough 4) operations from {CheckTx of one of 2 (one configuration 3) transactions, delivery of one pending response (v0 async connection), block commit with a symbolic subset of the transactions, symbolic DeliverTx codes, then recheck}; the application's verdict per transaction is a symbolic code that changes at every block; v1 priorities 0/1",
         "configuration": "Size 1..2, CacheSize 1..2 (including cache smaller than pool), MaxTxsBytes symbolic in [3,6], MaxTxBytes 3, KeepInvalidTxsInCache symbolic, Recheck on/off",
+        "concurrent submissions (v1)": "three goroutines submit A, B and A again (two orders) to the v1 mempool with a cache of one transaction while the application's answers are held back and then released one by one",
         "update lock": "the commit-time discipline the cache/pool consistency relies on (C05's quiescence entries): real BlockExecutor.Commit with the v0 mempool on a queued connection and one concurrent CheckTx with up to 3 preemptions",
         "reaping": "pool of 2..3 admitted transactions, ReapMaxTxs(max) for max in [-1,3], ReapMaxBytesMaxGas with symbolic limits in [-1,16]: prefix of the order, within the limits, maximal",
     },
@@ -263,13 +264,17 @@ PROPS["C20"] = {
 }
 
 PROPS["C13"] = {
-    "files": ["blockchain/v0/reactor.go", "blockchain/v0/pool.go", "types/block.go", "types/validator_set.go"],
+    "files": ["blockchain/v0/reactor.go", "blockchain/v0/pool.go", "types/block.go", "types/validator_set.go", "consensus/reactor.go", "consensus/state.go"],
     "groups": [
         {"dir": "blockchain/v0",
          "quick": ["VP_C13_Accept"],
          "thorough": []},
+        {"dir": "consensus",
+         "quick": ["VP_C13_Handover_n0", "VP_C13_Handover_n1", "VP_C13_Handover_n2"],
+         "thorough": []},
     ],
     "bounds": {
+        "hand-over (H3)": "0, 1 or 2 blocks stored (block store with seen commits, state store) through the real commit pipeline of a 1-validator chain; then a consensus State built from the start-up state and the real Reactor.SwitchToConsensus (service start stubbed): no panic, next height, last commit rebuilt with +2/3",
         "acceptance step (H1)": "the real BlockchainReactor.poolRoutine (its goroutines and tickers scheduled by the engine on virtual time) with two blocks already received from two peers; 4 validators of power 10, a different validator set from height 2 on; `first` canonical or another well-formed block; second.LastCommit for the canonical block or for `first`, each of its 4 slots one of {genuine, junk signature, absent, genuine signature under another validator's address}; real block store (MemDB) and real ValidateBlock; after the step: what was saved, executed, which peers were dropped, and whether types.CommitToVoteSet on the stored seen commit (what consensus does when it takes over) succeeds",
     },
     "stubs": ["p2p.Switch methods (Peers, StopPeerForError, Reactor, NumPeers) and BlockExecutor.ApplyBlock replaced by recorders (engine-level function interception): counterexamples are replayed in the interpreter", "requester goroutines emulated (a redo clears the requester's block)", "ed25519/sha256 concrete (real)"],
@@ -306,12 +311,13 @@ PROPS["C17"] = {
          "quick": ["VP_C17_Deliver_2x9", "VP_C17_HostilePackets_2"],
          "thorough": ["VP_C17_Deliver_3x9", "VP_C17_Deliver_4x5", "VP_C17_HostilePackets_3"]},
         {"dir": "consensus",
-         "quick": ["VP_C17_CoreSurvivesVote", "VP_C17_CoreSurvivesProposal", "VP_C17_CoreSurvivesBlockPart"],
+         "quick": ["VP_C17_CoreSurvivesVote", "VP_C17_CoreSurvivesProposal", "VP_C17_CoreSurvivesBlockPart", "VP_C17_ReactorStateMessages"],
          "thorough": []},
     ],
     "bounds": {
         "delivery (H1)": "real MConnection pair over an in-memory link, packet payload size 4: the real send side (Channel queues, sendPacketMsg channel selection by priority/recently-sent ratio, nextPacketMsg, protoio framing, flush) called step by step, the real receive routine running as a goroutine under the engine scheduler; 2 channels of different priority; 2 (thorough 3-4) messages of arbitrary bytes, each of any length 0..9 (thorough 4 messages: 0..5) on either channel, with 0-2 packets sent between two sends",
         "hostile packets (H1b)": "2 (thorough 3) packets written to the real receive routine: PacketMsg with arbitrary int32 channel id, arbitrary EOF flag, arbitrary data of length {0,4,7} against a message capacity of 6; ping; pong; empty Packet",
+        "consensus reactor, state channel (H2, partly)": "one NewRoundStep / HasVote / VoteSetMaj23 / ProposalPOL message with arbitrary height 0..3, round -1..2, step 0..9, last-commit round -2..2, index -1..5 through the real Reactor.ReceiveEnvelope; afterwards the consensus-state lock and the peer-state lock can be taken (no wedge), whether the call returned or panicked",
         "consensus core (H3)": "through ValidateBasic and the real handleMsg of a real consensus.State at the initial height: one signed vote message of arbitrary height 0..3, round 0..2, type, validator; one proposal signed by the round's proposer with height H-1..H+1, round 0..2, POL round -1..3, part-set total in {1, max, max+1, 65536}; two block-part messages for an accepted 2-part proposal, each a part of the proposed or of another block with index / proof index / proof total / bytes tampered, any round, height H or H+1",
     },
     "stubs": ["in-memory net.Conn", "nop logger", "timers on the engine's virtual clock (fire only when every goroutine is blocked)"],
